@@ -94,6 +94,15 @@ def run(prop: str, ctx: Ctx, seed: int, only: Optional[List[str]] = None, jobs: 
                 else:
                     crosstalk_ok += 1
         detail.append({"variant": v.name, "kind": v.kind, "expect": sorted(v.expect), "new_violations": [list(x) for x in new[:3]]})
+    mx = {}
+    if os.environ.get("TF_SKIP_MYPY") != "1":
+        try:
+            from . import mypy_xcheck
+            mx = mypy_xcheck.run(ctx)
+            for d in mx.get("mypy_disagreements", []):
+                failures.append(f"mypy disagrees with the engine's receiver type: {d}")
+        except Exception as e:  # pragma: no cover
+            mx = {"mypy_available": False, "mypy_note": f"{type(e).__name__}: {e}"}
     out = {
         "variants_total": len(idx),
         "variants_firing": fired,
@@ -103,4 +112,5 @@ def run(prop: str, ctx: Ctx, seed: int, only: Optional[List[str]] = None, jobs: 
         "thorough_failures": failures,
         "variant_samples": [d for d in detail if d.get("new_violations")][:12],
     }
+    out.update(mx)
     return out
